@@ -268,5 +268,39 @@ func c01OperatorHazardsUnconditional(p *Prog) *RuleResult {
 		}
 	})
 	r.Anchor("conditions of printSpaceBeforeOperator", n >= 4)
+	// the same for a regular expression printed right after a `/`: `a / /re/` must not become `a//re/`
+	// (a line comment) under any option; only the `</script` half of that test is about inline scripts
+	pe := p.FindFunc("js_printer.(*printer).printExpr")
+	if r.Anchor("js_printer.(*printer).printExpr", pe != nil) {
+		m := 0
+		eachInstr(pe, func(b *ssa.BasicBlock, in ssa.Instruction) {
+			bo, ok := in.(*ssa.BinOp)
+			if !ok || bo.Op != token.EQL || c13CaseKind(b) != "ERegExp" {
+				return
+			}
+			cv, ok := constInt(bo.Y)
+			if !ok || cv != '/' {
+				return
+			}
+			m++
+			r.Instances++
+			key := "printExpr ERegExp: space after a preceding `/`"
+			opt := ""
+			for _, f := range factsAt(b) {
+				backSlice(f.Cond, func(v ssa.Value) bool {
+					if fa, ok := v.(*ssa.FieldAddr); ok && fieldAddrName(fa) == "options" && namedTypeName(fa.X.Type()) == "js_printer.printer" {
+						opt = p.Pos(f.Cond.Pos())
+					}
+					return opt == ""
+				})
+			}
+			if opt == "" {
+				r.OK(key, true, "tested independently of the output options")
+			} else {
+				r.Fail(key, p.Pos(bo.Pos()), "the test that keeps `a / /re/` from being printed as `a//re/` (a line comment) is only made under an output option ("+opt+"): with that option off the rest of the line silently becomes a comment")
+			}
+		})
+		r.Anchor("printExpr ERegExp: test of the preceding byte for `/`", m >= 1)
+	}
 	return r
 }
